@@ -2,7 +2,7 @@
    correspondence check.  Everything here is executed with vm_compute. *)
 From Coq Require Import ZArith List String Bool PrimFloat.
 From Hexital Require Import Base.Prelude Base.Num Base.PyFloat Model.Manager Model.Candle Model.Readings
-  Model.Analysis Model.Engine Model.Hexital Inst.FloatInst Spec.Steppers.
+  Model.Analysis Model.Engine Model.Access Model.Hexital Inst.FloatInst Spec.Steppers.
 Import ListNotations.
 Local Open Scope Z_scope.
 
@@ -200,6 +200,41 @@ Definition check_hx (c : hx_case) : bool :=
     list_eqb hx_matches tr exp_states && opt_eqb Z.eqb (option_map exn_code e) exp_err
   end.
 Definition hadd (m : hx_member) : hop F := HAdd F (fst (hx_ind m)) (snd (hx_ind m)).
+
+
+(* ---------------- read accessors of Indicator and Hexital ---------------- *)
+Inductive acc :=
+| AAsList (name : string)                 (* Indicator.as_list(name) *)
+| AReading (name : string) (i : Z)        (* Indicator.reading(name, index) *)
+| AReadCandle (i : Z) (name : string)     (* Indicator.read_candle(candles[i], name) *)
+| ACount (name : string)                  (* Indicator.reading_count(name) *)
+| AHas (name : string)                    (* Indicator.has_reading (name = the indicator's own) *)
+| HReading (name : string) (i : Z)        (* Hexital.reading(name, index) *)
+| HPrev (name : string)                   (* Hexital.prev_reading(name) *)
+| HHas (name : string).                   (* Hexital.has_reading(name) *)
+
+(* every answer as a list of values: a bool as VBool, a count as an int *)
+Definition run_acc (st : store F) (others : list (store F)) (a : acc) : res (list (val F)) :=
+  match a with
+  | AAsList n => as_list F st n
+  | AReading n i => v <- reading F st n i ;; Ok [v]
+  | AReadCandle i n => match pyidx st i with Some c => v <- read_candle F c n ;; Ok [v] | None => Err IndexError end
+  | ACount n => k <- reading_count F st n ;; Ok [@VNum F (PI k)]
+  | AHas n => b <- has_reading F st n ;; Ok [VBool b]
+  | HReading n i => v <- hx_reading F st others n i ;; Ok [v]
+  | HPrev n => v <- hx_prev_reading F st others n ;; Ok [v]
+  | HHas n => b <- hx_has_reading F st others n ;; Ok [VBool b]
+  end.
+
+Definition acc_case : Type := store F * list (store F) * list (acc * (list (val F) + Z)).
+Definition check_acc (c : acc_case) : bool :=
+  let '(st, others, probes) := c in
+  forallb (fun pr : acc * (list (val F) + Z) =>
+             match run_acc st others (fst pr), snd pr with
+             | Ok vs, inl exp => list_eqb val_eqb vs exp
+             | Err x, inr code => exn_code x =? code
+             | _, _ => false
+             end) probes.
 
 
 (* ---------------- recurrence specifications ---------------- *)
